@@ -1899,9 +1899,11 @@ def run(ctx):
             stream_extend(ctx, env, corp["extend"], "corpus-extend")
         # (a) exhaustive citations
         if ctx.tier == "thorough":
-            for b in batches(gen_exh_citations(), 40000):
+            # ids = positions with the three statement patterns, the three wrong id assignments with
+            # all lines stated (there a wrong acceptance is possible at all)
+            for b in batches(itertools.chain(gen_exh_citations(idvars=(0,)), gen_exh_citations(idvars=(1, 2, 3), statedvars=(0,))), 40000):
                 stream_check(ctx, env, b, "exh-cite")
-            ctx.coverage["exhaustive_subspace"] = "all flat proofs of <=3 verif_join items, <=2 citations each from {-1,0,1,2,0.0,()}, 4 id assignments, 3 statement patterns"
+            ctx.coverage["exhaustive_subspace"] = "all flat proofs of <=3 verif_join items, <=2 citations each from {-1,0,1,2,0.0,()}; ids = positions x 3 statement patterns, 3 wrong id assignments with every line stated"
         else:
             rng = ctx.rng("exh-sample")
             sample = list(gen_exh_citations(idvars=(0,), statedvars=(0,), sizes=(1, 2)))
